@@ -12,4 +12,6 @@ sh tools/build_ocaml.sh || echo "setup: model oracle build failed"
 python3 tools/gen_registry.py
 REPO=${EG_REPO:-/repo}; sed "s#@REPO@#$REPO#g" harness/Cargo.toml.in > harness/Cargo.toml; [ -f harness/Cargo.lock ] || cp $REPO/Cargo.lock harness/Cargo.lock
 (cd harness && cargo build --release --offline 2>&1 | tail -3) || echo "setup: harness build failed"
+# second harness binary with the fixed_point feature set (C18 trigonometry through the I16F16 table)
+(cd harness && CARGO_TARGET_DIR="$PWD/../.build/cargo-fp" cargo build --release --offline --features fixed_point 2>&1 | tail -2) || echo "setup: fixed_point harness build failed"
 echo "setup done"
